@@ -682,6 +682,7 @@ class Exec(Interp):
                             for x in f.t:
                                 if x != p1 and not self.defined_in_loop(x, frame, body) and self.st.range(x) != (0, 1):
                                     cands.append(((c1, p1), (None, x)))
+                                    cands.append(((None, x), (c1, p1)))  # a counter going down to a fixed lower end
                 # bounded counter: p' = p + c (c >= 1) on every back edge and p' has a finite upper bound
                 for c1, p1 in phis:
                     okc = True
@@ -709,9 +710,9 @@ class Exec(Interp):
                         B = edges[p]
                         if B.dead:
                             continue
-                        nlo = B.cells.get(clo)
+                        nlo = B.cells.get(clo) if clo is not None else None
                         nhi = B.cells.get(chi) if chi is not None else None
-                        tlo = B.term(nlo.sym) if isinstance(nlo, Scalar) else None
+                        tlo = B.term(nlo.sym) if isinstance(nlo, Scalar) else (B.term(lo_) if clo is None else None)
                         thi = B.term(nhi.sym) if isinstance(nhi, Scalar) else (B.term(hi_) if chi is None else None)
                         if tlo is None or thi is None:
                             ok = False
